@@ -10,6 +10,12 @@ Fault injection uses public extension points only:
   * "tls_hs"       : an ssl.SSLContext subclass returns an SSLObject proxy whose do_handshake raises for F's connection
   * real set-up faults: RST right after accept (SO_LINGER 0 close), garbage instead of ClientHello, stalled handshake
     (ssl_handshake_timeout), peer closing in the middle of the ClientHello
+  * malformed input (`fault["bad"]`): the faulty client itself sends a packet the protocol cannot parse — alone in a
+    segment, in the same segment after / before valid packets, split over two segments, two in a row, while
+    on_connection is still running, while the handler waits at a `yield` with a timeout, right before a half-close —
+    to a handler that catches the parse error and goes on, re-raises it, or has no `except` at all around its `yield`;
+    StreamProtocol (recv) and BufferedStreamProtocol (recv_into) servers; for UDP a malformed datagram, alone or sent
+    back-to-back behind a valid one
 
 Observations are behaviour only (no wall-clock in the output).  Every wait has a generous bound; a bound that expires while
 the server is still alive makes the whole case be retried once with 4x longer bounds (2 s, then 8 s) before the timeout is reported as an
@@ -23,6 +29,7 @@ import logging
 import socket
 import ssl
 import struct
+import sys
 import warnings
 from typing import Any
 
@@ -31,7 +38,7 @@ from vlib.c14_env import CERT, KEY
 
 from easynetwork.exceptions import (BaseProtocolParseError, ClientClosedError, DatagramProtocolParseError, DeserializeError,
                                     StreamProtocolParseError)
-from easynetwork.protocol import DatagramProtocol, StreamProtocol
+from easynetwork.protocol import BufferedStreamProtocol, DatagramProtocol, StreamProtocol
 from easynetwork.serializers.line import StringLineSerializer
 from easynetwork.servers.async_tcp import AsyncTCPNetworkServer
 from easynetwork.servers.async_udp import AsyncUDPNetworkServer
@@ -275,6 +282,25 @@ class Plan:
         self.T = 2.0 * scale
         self.timeouts: list[str] = []
         self.serve: asyncio.Future | None = None
+        # malformed input sent by F itself (see bad_script)
+        self.bad: dict = f.get("bad") or {}
+        self.react: str = self.bad.get("react", "reraise")        # catch | reraise | propagate
+        self.ytimeout: float | None = 30.0 if self.bad.get("ytimeout") else None
+        self.oc_gate = asyncio.Event()
+        if not self.bad.get("oc_busy"):
+            self.oc_gate.set()
+        self.proto: str = case.get("proto", "copy")
+
+    def note_exc(self, who: str) -> None:
+        """called from a `finally:` of F's hooks: a parse error propagating through a hook that has no `except` for it"""
+        if who == "F" and self.bad and isinstance(sys.exc_info()[1], BaseProtocolParseError):
+            self.fault_raised = True
+
+    async def gate(self, who: str) -> None:
+        """F's on_connection is kept busy until the harness has sent F's data (`oc_busy`)"""
+        if who == "F" and not self.oc_gate.is_set():
+            with contextlib.suppress(asyncio.TimeoutError):
+                await asyncio.wait_for(self.oc_gate.wait(), self.T)
 
     async def bounded(self, aw: Any, label: str) -> Any:
         """result of `aw`, or TIMEOUT (bound expired, server alive: recorded) or DEAD (the serve task has ended)"""
@@ -338,21 +364,27 @@ class _StreamHandlerBase(AsyncStreamRequestHandler[str, str]):
         if who == "F":
             p.sockets["F"] = client.extra(INETClientAttribute.socket)
         n = 0
+        yt = p.ytimeout if who == "F" else None
         try:
             if p.should(who, "h_pre", gen=g):
                 raise p.fault()
             while True:
-                try:
-                    req = yield None
-                except BaseProtocolParseError as e:
-                    if p.should(who, "h_thrown", gen=g):
-                        raise p.fault(e)
-                    await client.send_packet("bad")
-                    continue
-                except GeneratorExit:
-                    if p.should(who, "h_gexit", gen=g):
-                        raise p.fault()
-                    raise
+                if p.react == "propagate" and p.should(who, "h_thrown", gen=g):
+                    req = yield yt          # no `except` here: a parse error thrown in propagates out of handle()
+                else:
+                    try:
+                        req = yield yt
+                    except BaseProtocolParseError as e:
+                        if p.react != "catch" and p.should(who, "h_thrown", gen=g):
+                            raise p.fault(e)
+                        if who == "F" and p.bad:
+                            p.fault_raised = True
+                        await client.send_packet("bad")
+                        continue
+                    except GeneratorExit:
+                        if p.should(who, "h_gexit", gen=g):
+                            raise p.fault()
+                        raise
                 n += 1
                 if req == "hold":
                     p.holding.set()
@@ -367,6 +399,7 @@ class _StreamHandlerBase(AsyncStreamRequestHandler[str, str]):
                 if n == 2:
                     return
         finally:
+            p.note_exc(who)
             p.ev(who, f"handle:closed g{g}")
 
     async def on_disconnection(self, client):  # type: ignore[override]
@@ -386,6 +419,7 @@ class CoroConnHandler(_StreamHandlerBase):
             p.sockets["F"] = client.extra(INETClientAttribute.socket)
         if p.should(who, "oc_coro"):
             raise p.fault()
+        await p.gate(who)
         p.ev(who, "on_connection:done")
 
 
@@ -398,15 +432,25 @@ class GenConnHandler(_StreamHandlerBase):
             p.sockets["F"] = client.extra(INETClientAttribute.socket)
         if p.should(who, "oc_pre"):
             raise p.fault()
-        while True:
-            try:
-                req = yield None
-            except BaseProtocolParseError as e:
-                if p.should(who, "oc_thrown"):
-                    raise p.fault(e)
-                await client.send_packet("bad")
-                continue
-            break
+        await p.gate(who)
+        yt = p.ytimeout if who == "F" else None
+        try:
+            while True:
+                if p.react == "propagate" and p.should(who, "oc_thrown"):
+                    req = yield yt          # no `except`: the parse error propagates out of on_connection()
+                    break
+                try:
+                    req = yield yt
+                except BaseProtocolParseError as e:
+                    if p.react != "catch" and p.should(who, "oc_thrown"):
+                        raise p.fault(e)
+                    if who == "F" and p.bad:
+                        p.fault_raised = True
+                    await client.send_packet("bad")
+                    continue
+                break
+        finally:
+            p.note_exc(who)
         if p.should(who, "oc_post"):
             raise p.fault()
         await client.send_packet(f"welcome {req}")
@@ -427,17 +471,26 @@ class DgramHandler(AsyncDatagramRequestHandler[str, str]):
             if p.should(who, "h_pre", gen=g):
                 raise p.fault()
             while True:
-                try:
-                    req = yield None
-                except BaseProtocolParseError as e:
-                    if p.should(who, "h_thrown", gen=g):
-                        raise p.fault(e)
-                    await client.send_packet("bad")
-                    continue
+                if p.react == "propagate" and p.should(who, "h_thrown", gen=g):
+                    req = yield None        # no `except`: the parse error propagates out of handle()
+                else:
+                    try:
+                        req = yield None
+                    except BaseProtocolParseError as e:
+                        if p.react != "catch" and p.should(who, "h_thrown", gen=g):
+                            raise p.fault(e)
+                        if who == "F" and p.bad:
+                            p.fault_raised = True
+                        await client.send_packet("bad")
+                        continue
                 n += 1
                 if req == "hold":
                     p.holding.set()
                     await p.hold.wait()
+                if req.startswith("slow") and who == "F":
+                    # (burst: the next datagram of F, sent back-to-back, is queued while this one is being handled)
+                    for _ in range(10):
+                        await asyncio.sleep(0)
                 if p.should(who, "h_post", gen=g, k=n):
                     if p.queued:
                         # let the harness queue more datagrams of F behind this one, and the server receive them
@@ -451,6 +504,7 @@ class DgramHandler(AsyncDatagramRequestHandler[str, str]):
                 if n == 2:
                     return
         finally:
+            p.note_exc(who)
             p.ev(who, f"handle:closed g{g}")
 
 
@@ -601,7 +655,53 @@ async def _poll(cond, bound: float, plan: "Plan | None" = None) -> bool:
 
 
 BAD_LINE = b"\xff\xfe\xfd\n"
+BAD2_LINE = b"\xfe\xff\n"
 BAD_DGRAM = b"\xff\xfe\xfd"
+BAD_HOWS_TCP = ("alone", "glued", "glued2", "bad_first", "split", "split_glued", "twobad")
+BAD_HOWS_OC = ("alone", "bad_first", "split", "twobad")
+BAD_HOWS_UDP = ("alone", "burst")
+
+
+def bad_script(case: dict) -> tuple[list[str], list[bytes], list[tuple[str, str]]]:
+    """What the faulty client sends when the fault is malformed input (`fault["bad"]`):
+         head    requests asked one at a time before (each answered before the next is sent)
+         final   the byte chunks (one segment / TLS record / datagram each) that carry the malformed packet(s)
+         packets everything in sending order as ("v", request text) | ("b", "")
+       `v` = number of valid requests the handle() generators receive before the malformed packet."""
+    f = case["fault"]
+    b = f.get("bad") or {}
+    how = b.get("how", "alone")
+    v = int(b.get("v", 0))
+    gen_mode = case.get("oc", "coro") == "gen" and case["kind"] != "udp"
+    head: list[str] = []
+    if case["kind"] == "udp":
+        burst = how == "burst"
+        head = [f"f{i + 1}" for i in range(v - (1 if burst else 0))]
+        final = ([f"slow{v}".encode()] if burst else []) + [BAD_DGRAM]
+        packets = [("v", h) for h in head] + ([("v", f"slow{v}")] if burst else []) + [("b", "")]
+        return head, final, packets
+    if f["pos"] == "oc_thrown":
+        # the malformed packet reaches the yield of the on_connection() generator
+        final = {"alone": [BAD_LINE], "bad_first": [BAD_LINE + b"login-F\n"], "split": [BAD_LINE[:2], BAD_LINE[2:]],
+                 "twobad": [BAD_LINE + BAD2_LINE]}[how]
+    else:
+        glued = how in ("glued", "glued2", "split_glued")
+        n_single = v - (1 if glued else 0)
+        pre = b""
+        if gen_mode:
+            if b.get("login_glued") and n_single == 0:
+                pre = b"login-F\n"          # the login and what follows arrive in one segment
+            else:
+                head.append("login-F")
+        head += [f"f{i + 1}" for i in range(n_single)]
+        valid, nxt = f"f{v}\n".encode(), f"f{v + 1}\n".encode()
+        final = {"alone": [pre + BAD_LINE], "glued": [pre + valid + BAD_LINE], "glued2": [pre + valid + BAD_LINE + nxt],
+                 "bad_first": [pre + BAD_LINE + nxt], "split": [pre + BAD_LINE[:2], BAD_LINE[2:]],
+                 "split_glued": [pre + valid + BAD_LINE[:2], BAD_LINE[2:]], "twobad": [pre + BAD_LINE + BAD2_LINE]}[how]
+    packets = [("v", h) for h in head]
+    for line in b"".join(final).split(b"\n")[:-1]:
+        packets.append(("b", "") if line[:1] in (b"\xff", b"\xfe") else ("v", line.decode()))
+    return head, final, packets
 HANDSHAKE_TIMEOUT = 0.25       # only for the `tls_stall` fault (the one wall-clock constant of this file; behaviour-only)
 
 
@@ -625,7 +725,8 @@ async def _tcp_session(plan: Plan, cap: Capture) -> list[str]:
     if tls:
         kw = {"ssl": contexts()[0], "ssl_shutdown_timeout": 1.0,
               "ssl_handshake_timeout": HANDSHAKE_TIMEOUT if plan.pos == "tls_stall" else max(30.0, plan.T)}
-    server = AsyncTCPNetworkServer(HOST, 0, StreamProtocol(StringLineSerializer()), handler, logger=logger, **kw)
+    protocol: Any = (BufferedStreamProtocol if plan.proto == "buffered" else StreamProtocol)(StringLineSerializer())
+    server = AsyncTCPNetworkServer(HOST, 0, protocol, handler, logger=logger, **kw)
     up = asyncio.Event()
     serve = plan.serve = asyncio.ensure_future(server.serve_forever(is_up_event=up))
     lines: list[str] = []
@@ -758,6 +859,8 @@ async def _tcp_fault(plan: Plan, f: TcpClient, h1: TcpClient, gen_mode: bool) ->
             closed = "closed"
         except _NoConnection:
             closed = "open"
+    elif plan.bad:
+        closed = await _tcp_bad_data(plan, f, during)
     else:
         ok = await f.connect()
         if ok:
@@ -811,6 +914,61 @@ async def _tcp_fault(plan: Plan, f: TcpClient, h1: TcpClient, gen_mode: bool) ->
     return lines
 
 
+async def _tcp_bad_data(plan: Plan, f: TcpClient, during: Any) -> str:
+    """F sends malformed input (see bad_script); returns what became of its connection"""
+    b = plan.bad
+    head, final, packets = bad_script(plan.case)
+    if not await f.connect():
+        plan.oc_gate.set()
+        during()
+        return "closed" if f.answers[-1] not in ("connect-timeout", "connect-dead") else "open"
+    if head:
+        plan.oc_gate.set()          # (oc_busy needs everything in flight before on_connection ends: only without a head)
+    for h in head:
+        a = await f.ask(h)
+        if a in ("closed", TIMEOUT, DEAD):
+            break
+    for i, chunk in enumerate(final):
+        if i:
+            # the rest of a split packet goes out once the first part has had every chance to be received alone
+            for _ in range(5):
+                await asyncio.sleep(0)
+            await asyncio.sleep(0.005)
+        f.send(chunk)
+    halfclose = bool(b.get("halfclose")) and not f.tls
+    if halfclose and f.writer is not None:
+        with contextlib.suppress(OSError, RuntimeError, NotImplementedError):
+            f.writer.write_eof()        # "right before disconnection": FIN follows the malformed packet at once
+    if not plan.oc_gate.is_set():
+        for _ in range(5):
+            await asyncio.sleep(0)
+        await asyncio.sleep(0.005)
+        plan.oc_gate.set()
+    during()
+    n_final = len(packets) - len(head)
+    if plan.react == "catch" and not halfclose:
+        # every packet of the final chunks is answered (valid: pong / welcome, malformed: "bad"), the connection stays open
+        for _ in range(n_final):
+            a = await f.recv()
+            f.answers.append(a)
+            if a in ("closed", TIMEOUT, DEAD):
+                return "open" if a is TIMEOUT else "closed"
+        if plan.pos == "oc_thrown" and b.get("how") != "bad_first":
+            await f.ask("login-F")
+        await f.ask("fz")           # F is still served
+        await f.close()
+        await _poll(lambda: any(e == "F on_disconnection" for e in plan.events), plan.T, plan)
+        return "closed"
+    for _ in range(n_final + 2):
+        a = await f.recv()
+        if a == "closed":
+            return "closed"
+        if a in (TIMEOUT, DEAD):
+            return "open"
+        f.answers.append(a)
+    return "open"
+
+
 async def _udp_session(plan: Plan, cap: Capture) -> list[str]:
     case = plan.case
     logger = logging.getLogger("c17.server")
@@ -837,6 +995,22 @@ async def _udp_session(plan: Plan, cap: Capture) -> list[str]:
         if pos is None:
             await f.ask("f1")
             h1.send("during")
+        elif plan.bad:
+            head, final, packets = bad_script(case)
+            for h in head:
+                await f.ask(h)
+            for d in final:
+                f.send(d)           # back-to-back
+            h1.send("during")
+            if plan.react == "catch":
+                for _ in final:
+                    f.answers.append(await f.recv())
+            else:
+                for _ in final[:-1]:
+                    f.answers.append(await f.recv())
+                if not await _poll(lambda: plan.fault_raised and any(e.startswith("F handle:closed") and
+                                                                  e.endswith(f"g{plan.gen}") for e in plan.events), plan.T, plan):
+                    plan.timeouts.append("F fault")
         else:
             pre = (plan.gen - 1) * 2 + ((plan.k - 1) if pos == "h_post" else 0)
             for i in range(pre):
@@ -865,7 +1039,7 @@ async def _udp_session(plan: Plan, cap: Capture) -> list[str]:
         a = await f.ask("again")
         lines.append("faulty " + " ".join(f.answers))
         fresh = a.startswith("pong_again_g") and a[len("pong_again_g"):].isdigit() and \
-            (pos is None or int(a[len("pong_again_g"):]) > plan.gen)
+            (pos is None or (plan.bad and plan.react == "catch") or int(a[len("pong_again_g"):]) > plan.gen)
         lines.append(f"faulty-fresh {int(fresh)}")
         lines.append(f"fault-raised {int(plan.fault_raised)}")
         if sched != "nohold":
